@@ -71,7 +71,8 @@ def command(r):
     if k < 0.97:
         return "v" + r.choice(MOTIONS) + reg + r.choice(["d", "y", "~", "U", "u", "g?", "r" + r.choice(REPL), "c!<esc>"])
     if r.random() < 0.5:
-        return r.choice(["h", "l", "3l", "2h", "0", "^", "$", "2$", "gg", "G", "3|", "|", "A<esc>", "I<esc>", "x", "X", "d0", "d$", "dl", "dh", "d^", "vl", "v$", "vh"])
+        return r.choice(["h", "l", "3l", "2h", "0", "^", "$", "2$", "gg", "G", "3|", "|", "A<esc>", "I<esc>", "x", "X", "d0", "d$", "dl", "dh", "d^", "vl", "v$", "vh",
+                         "w", "b", "e", "W", "B", "E", "2w", "3b", "2e", "2W", "3E", "2B", "dw", "db", "de", "dW", "cwX<esc>", "c2wY<esc>", "cW!<esc>", "yw", "ye", "g~w", "gUe"])
     return r.choice(MOTIONS)
 
 
@@ -343,6 +344,41 @@ def run(tier, seed, replay=None):
         if m["mk"] != parse_mk(t["mk"]):
             R.disagreement("motion model: %s x%s at %d of %r (excl %s): model %s impl %s" % (
                 name, re.search(r"MotionCmd\((\d+)", t["cmd"]).group(1), t["cur"]["value"], t["buf"][:60], t["cur"]["exclusive"], canon(m["mk"]), t["mk"]), c)
+
+    # ---- word motions: w W e E b B through the scanners vs the Lean model (classes computed per grapheme)
+    def cls(g):
+        fl = 0
+        for ch in g:
+            if ch.isalnum() or ch == "_":
+                fl |= 2
+            elif ch.isspace():
+                fl |= 1
+        return fl
+    wreqs, wmeta = [], []
+    for i, (c, x) in enumerate(zip(cases, resp)):
+        if "steps" not in x:
+            continue
+        for st in x["steps"][1:]:
+            for t in st["trace"]:
+                if t["k"] != "lb" or t["flags"] != 0:
+                    continue
+                mm = re.search(r"motion=Some\(MotionCmd\((\d+), WordMotion\((Start|End), (Normal|Big), (Forward|Backward)\)\)\) flags=", t["cmd"])
+                if not mm:
+                    continue
+                kind = {("Start", "Forward"): "startFwd", ("End", "Forward"): "endFwd", ("Start", "Backward"): "startBwd"}.get((mm.group(2), mm.group(4)))
+                if not kind or (t["cache"] is not None and t["cache"] != t["fresh"]):
+                    continue
+                gs = graphemes_of(t["buf"], t["fresh"])
+                wreqs.append({"op": "word", "cls": [cls(g) for g in gs], "cur": t["cur"]["value"], "kind": kind, "big": mm.group(3) == "Big",
+                              "count": int(mm.group(1)), "change": t["verb"] == "Change"})
+                wmeta.append((c, t, kind))
+    for (c, t, kind), m in zip(wmeta, batch(model_driver, wreqs)):
+        R.count("word_model:" + kind)
+        if "mk" not in m:
+            R.disagreement("driver: %s" % canon(m)[:100], c)
+            continue
+        if m["mk"] != parse_mk(t["mk"]):
+            R.disagreement("word motion model: %s at %d of %r: model %s impl %s" % (kind, t["cur"]["value"], t["buf"][:60], canon(m["mk"]), t["mk"]), c)
 
     mres = batch(model_driver, mreqs)
     for (i, k, lb, done, verb, mk), m in zip(mmeta, mres):
